@@ -25,7 +25,7 @@ package crl
 
 //@ func CRLRevocationChecker.Provision
 //@   constructor
-//@   props C15 C19 C20 C03
+//@   props C15 C16 C19 C20 C03
 //@   requires[C15,C19] usable_interval: crlConfig != nil && crlConfig.UpdateIntervalParsed > 0
 //@   requires c != nil && crlConfig != nil && crlConfig.CDPConfig != nil && logger != nil && norwlocks() && unheld(&workDirInUseMutex) && unheld(&crlUpdateMutex) && certsNonNil(crlConfig.TrustedSignatureCerts)
 //@   assigns L.held, crlrepository.Entry.CRLStore, crlrepository.Entry.Loaded, crlrepository.Entry.LastUpdateSignatureVerifyFailed, crlrepository.Entry.LastUpdateSignature, crlrepository.Entry.Chains, H.crlrepository.Repository.crlRepository, M.map[string]*crlrepository.Entry, crlstore.MapStore.Map, M.map[string][]uint8, crlstore.LevelDbStore.Db, H.crlloader.MultiSchemesCRLLoader, H.crlloader.URLLoader, H.crlloader.FileLoader, X.ldbhas, X.fs, X.net, X.retry, X.stream, X.spos, X.hacc, X.hkind, E.uint8, E.any, E.string, fresh:E.*core.CertificateChainEntry, fresh:E.core.CertificateChain, fresh:E.core.CertificateChainEntry, *c, M.map[string]int, G.crl.workDirsInUse, G.crl.lastCrlUpdateFinishTime, X.ticker
@@ -39,7 +39,7 @@ package crl
 //@   ensures[C20] stop_channel_closed: old(c.crlUpdateStop) != nil ==> called(close#1) && arg(close#1, 0) == old(c.crlUpdateStop)
 
 //@ func CRLRevocationChecker.addCrlUrlsFromConfig
-//@   props C15 C19
+//@   props C15 C16 C19
 //@   requires checkerOK(c) && norwlocks() && chains != nil && chainsOK(chains)
 //@   assigns L.held, crlrepository.Entry.CRLStore, crlrepository.Entry.Loaded, crlrepository.Entry.LastUpdateSignatureVerifyFailed, crlrepository.Entry.LastUpdateSignature, crlrepository.Entry.Chains, H.crlrepository.Repository.crlRepository, M.map[string]*crlrepository.Entry, crlstore.MapStore.Map, M.map[string][]uint8, crlstore.LevelDbStore.Db, H.crlloader.MultiSchemesCRLLoader, H.crlloader.URLLoader, H.crlloader.FileLoader, X.ldbhas, X.fs, X.net, X.retry, X.stream, X.spos, X.hacc, X.hkind, E.uint8, E.any, E.string, fresh:E.*core.CertificateChainEntry, fresh:E.core.CertificateChain, fresh:E.core.CertificateChainEntry
 //@   ensures checkerOK(c)
@@ -50,7 +50,7 @@ package crl
 //@   loop 1 invariant chainsOK(chains)
 //@   loop 1 iter_ensures[C15,C16] configured_crl_is_added_and_refreshed: called(Repository.AddCRL#1) && res(Repository.AddCRL#1, 1) == nil && called(Repository.UpdateCRL#1) && res(Repository.UpdateCRL#1) == nil
 //@ func CRLRevocationChecker.addCrlFilesFromConfig
-//@   props C15 C19
+//@   props C15 C16 C19
 //@   requires checkerOK(c) && norwlocks() && chains != nil && chainsOK(chains)
 //@   assigns L.held, crlrepository.Entry.CRLStore, crlrepository.Entry.Loaded, crlrepository.Entry.LastUpdateSignatureVerifyFailed, crlrepository.Entry.LastUpdateSignature, crlrepository.Entry.Chains, H.crlrepository.Repository.crlRepository, M.map[string]*crlrepository.Entry, crlstore.MapStore.Map, M.map[string][]uint8, crlstore.LevelDbStore.Db, H.crlloader.MultiSchemesCRLLoader, H.crlloader.URLLoader, H.crlloader.FileLoader, X.ldbhas, X.fs, X.net, X.retry, X.stream, X.spos, X.hacc, X.hkind, E.uint8, E.any, E.string, fresh:E.*core.CertificateChainEntry, fresh:E.core.CertificateChain, fresh:E.core.CertificateChainEntry
 //@   ensures checkerOK(c)
